@@ -12,7 +12,9 @@ package main
 //      initialised by a literal with at most c03MaxRows rows and is never written, sliced, aliased or passed on
 //      anywhere in the package is unrolled into one block per row, `row.field` / `row` / `i` replaced by the
 //      row's (converted) initialiser expression. B must not break/continue/goto/label, close over or assign
-//      the loop variables.
+//      the loop variables;
+//   3. working-variable structs: a local struct whose value is never observed as a whole (only `V.f`, or `p.f`
+//      through a never-reassigned `p := &V`) is replaced by one local per field (c03sra.go).
 //
 // On a tree that has neither construct the pass changes nothing. VX_NO_NORMALISE=1 switches it off.
 
@@ -35,7 +37,7 @@ func c03Normalise(c *Ctx) {
 	}
 	shorts := []string{"ansi", "vaxis"}
 	any := false
-	for round := 0; round < 5; round++ {
+	for round := 0; round < 8; round++ {
 		changed := map[*packages.Package]map[*ast.File]bool{}
 		for _, sh := range shorts {
 			pk := c.P.Pkg(sh)
@@ -58,6 +60,9 @@ func c03Normalise(c *Ctx) {
 					}
 					if !did {
 						did = c03UnrollTables(pk, f, fd, tables)
+					}
+					if !did {
+						did = c03ScalarReplace(pk, f, fd)
 					}
 					if did {
 						if changed[pk] == nil {
